@@ -16,9 +16,9 @@ META = {
     "coq_targets": ["Props/Properties_C06.vo", "Meta/ListCheck.vo"],
     "coq_files": ["Gen/MetaConsts.v", "Meta/SMap.v", "Meta/Model.v", "Meta/Spec.v", "Meta/Check.v", "Meta/SMapProofs.v", "Meta/StatusProofs.v",
                   "Meta/WfProofs.v", "Meta/ListModel.v", "Meta/ListCheck.v", "Meta/ListProofs.v", "Meta/ListProofs2.v", "Meta/ListProofs3.v",
-                  "Props/Properties_C06.v"],
+                  "Meta/ListEngine.v", "Props/Properties_C06.v"],
     "theorems": ["C06_any_cursor", "C06_next_cursor", "C06_shard_chain", "C06_shard_chain_from", "C06_no_duplicates",
-                 "C06_never_lists_removed"],
+                 "C06_never_lists_removed", "C06_engine_page", "C06_engine_chain", "C06_engine_reference"],
     "technique": "Coq proof about the Gallina model of listWithCursor / selectNFromBucket / iterPrefixedIDs (induction over the bucket list and "
                  "over the object IDs of a bucket; every reachable state is well formed by the invariant of C01) + differential correspondence: "
                  "real engine over 1-4 real shards, DB/Shard/StorageEngine.ListWithCursor pages compared with the model evaluated on the dumped "
@@ -28,17 +28,21 @@ META = {
                   "garbage mark, container not removed) after the cursor in (container, object) order (C06_any_cursor) and the returned cursor "
                   "resumes exactly after them (C06_next_cursor); hence for every sequence of page sizes >= 1 the concatenated pages from the nil "
                   "cursor are the listed objects in order, each once (C06_shard_chain, C06_no_duplicates), followed by end-of-listing; removed "
-                  "objects and objects of removed containers are never listed (C06_never_lists_removed). Engine level: the model of "
-                  "StorageEngine.ListWithCursor / mergeListResults (two-way merge, shard-ID union, truncation, engine cursor) and its declarative "
-                  "reference (every address listed by some shard once, in order, ShardIDs = exactly the listing shards) are compared with the real "
-                  "engine on every run; nothing about the engine merge is proved in Coq yet.",
-    "level_note": "partial: the engine-level theorem C06_engine_chain (statement in Props/Properties_C06.v) is NOT proved in Coq; engine merging is "
-                  "modelled and tied differentially only (model = real engine = reference on every generated configuration). Premise of all "
-                  "theorems: no stored object has the all-zero ID (oids_pos; the Go code treats a zero lastObjectID as 'from the beginning', so a "
+                  "objects and objects of removed containers are never listed (C06_never_lists_removed). Engine level (proved, all lists of shards "
+                  "whose metabases are reachable states, all shard orders, all cursors, all page sizes): the model of "
+                  "StorageEngine.ListWithCursor / mergeListResults (two-way merge, shard-ID append on equal addresses, truncation, engine cursor = "
+                  "last merged address) returns the first n entries of the declarative reference eng_listed (C06_engine_page); any sequence of "
+                  "page sizes >= 1 yields the reference in order, each entry once, then end-of-listing (C06_engine_chain); the reference is "
+                  "strictly sorted by address, contains an address iff some shard lists it, with ShardIDs = exactly the listing shards "
+                  "(C06_engine_reference). The engine model is compared with the real engine on every run.",
+    "level_note": "The engine merge is a hand-written model (ListModel.merge_list_results / engine_list) tied differentially to the real engine "
+                  "(model = real engine = reference on every generated configuration); the proof (Meta/ListEngine.v) is about that model. Premise of all "
+                  "theorems (partial in this respect): no stored object has the all-zero ID (oids_pos; the Go code treats a zero lastObjectID as 'from the beginning', so a "
                   "zero-ID object would be listed forever; IDs are SHA-256 hashes) - stated as an explicit premise, not proved as an invariant of "
                   "histories with non-zero IDs. Container ID zero is assumed absent (Go skips such a bucket). Modelled, not verified: bbolt as an "
                   "ordered map (key order = numeric order of big-endian IDs), attributes of listed items (not projected), Shard.ListWithCursor's "
                   "mode check (degraded mode not exercised), the engine's shard order (an input of the model; observable holder lists are sorted), "
+                  "shards that fail are modelled as returning nothing, "
                   "slice aliasing inside mergeListResults (buffers reused between merges) is exercised by the tie only.",
     "trusted_base": ["Coq 8.16.1 kernel, vm_compute", "model Meta/Model.v (view_list) and Meta/ListModel.v hand-written, tied by differential check",
                      "harness/cmd/meta/list.go, hooks zz_verif_list_*.go, zz_verif_meta.go, props/C06.py, props/_meta.py, lib/vlib.py",
